@@ -127,6 +127,9 @@ func (p *Pipe) Read(b []byte) (int, error) {
 	if len(b) == 0 {
 		return 0, nil
 	}
+	if simrt.Tracing() {
+		simrt.Event("read %s: want %d buffered=%d consumed=%d written=%d eofAt=%d", p.Name, len(b), len(p.buf), p.consumed, p.written, p.ReadEOFAt)
+	}
 	simrt.Block("read "+p.Name, p.readReady)
 	p.Reads++
 	if p.rclosed {
